@@ -85,7 +85,7 @@ def xcells_sexp(cells):
 def run(ctx):
     rng = ctx.rng
     quick = ctx.tier == "quick"
-    budget = 3000 if quick else 60000
+    budget = 3000 if quick else 6000
     cases = []
     if ctx.replay is not None and ctx.replay.get("case", {}).get("fn") == "gen":
         cases = [ctx.replay["case"]]
